@@ -788,7 +788,9 @@ impl FrontendInternal {
         queue_index: usize,
         fd: RawFd,
     ) -> VhostUserResult<VhostUserMsgHeader<FrontendReq>> {
-        if queue_index as u64 >= self.max_queue_num {
+        // Only bits (0-7) of the payload carry the vring index: a larger index would alias another
+        // vring or set the invalid FD flag (bit 8).
+        if queue_index as u64 >= self.max_queue_num || queue_index > 0xff {
             return Err(VhostUserError::InvalidParam);
         }
         self.check_state()?;
